@@ -156,6 +156,8 @@ func checkC18(c *fw.Ctx) {
 	checkF8(c)
 	checkF9(c)
 	checkF10(c)
+	checkF11(c)
+	checkF12(c)
 	// a v12 event must stay a v12 event: an eventV2 copy of it panics in RoomID() (shared with C03.9)
 	checkDerivedTypePreserved(c)
 }
@@ -978,7 +980,26 @@ func checkF7(c *fw.Ctx) {
 		return
 	}
 	n := 0
+	type site struct {
+		call ssa.CallInstruction
+		in   *ssa.Function
+	}
+	var sites []site
 	for _, call := range fw.CallsTo(fn, true, fw.NameIs("gmsl.VerifyJSON", "golang.org/x/crypto/ed25519.Verify", "crypto/ed25519.Verify")) {
+		sites = append(sites, site{call, fn})
+	}
+	// VerifyJSON does not test the length itself: every other caller hands it a key that comes
+	// from somewhere (a pseudo-ID sender, a third-party invite, a key database) and must test it
+	for _, f := range c.P.SrcFuncs() {
+		if f == fn || f == vj || f.Parent() == fn {
+			continue
+		}
+		for _, call := range fw.CallsTo(f, false, fw.NameIs("gmsl.VerifyJSON")) {
+			sites = append(sites, site{call, f})
+		}
+	}
+	for _, st := range sites {
+		call := st.call
 		n++
 		keyArg := call.Common().Args[2]
 		if strings.HasSuffix(fw.CalleeName(call), "ed25519.Verify") {
@@ -1011,8 +1032,8 @@ func checkF7(c *fw.Ctx) {
 			// through a recorded flag: `entry.ValidX = len(key) == 32; if entry.ValidX { ... }`
 			if u, isU := cv.(*ssa.UnOp); isU {
 				if fa, isFA := u.X.(*ssa.FieldAddr); isFA {
-					if st := derefStructOf(fa.X.Type()); st != nil {
-						stores := fw.FieldStores(fn, "", st.Field(fa.Field).Name())
+					if sty := derefStructOf(fa.X.Type()); sty != nil {
+						stores := fw.FieldStores(st.in, "", sty.Field(fa.Field).Name())
 						all := len(stores) > 0
 						for _, s2 := range stores {
 							if !isLenTest(s2.Val) {
@@ -1025,6 +1046,10 @@ func checkF7(c *fw.Ctx) {
 					}
 				}
 			}
+		}
+		if st.in != fn {
+			c.Check(ok, rule, fw.FuncName(st.in)+" verifies with a key only after testing that it is 32 bytes long", c.P.Pos(call.Pos()), "", "VerifyJSON hands its key to ed25519.Verify unchanged and is called here with "+key+" without the guard len(key) == 32: ed25519.Verify panics on a key of any other length (a pseudo-ID sender, a third-party invite key or a stored key of the wrong length crashes the check)")
+			continue
 		}
 		c.Check(ok, rule, "checkVerifyKeys verifies a published key only after testing that it is 32 bytes long", c.P.Pos(call.Pos()), "", "the signature check of a remote server's published key is reached without the guard len(key) == 32: ed25519.Verify panics on a key of any other length, so a crafted key response crashes CheckKeys")
 	}
